@@ -1327,6 +1327,93 @@ fn exec_conc(sv: &mut Servers, out: &mut Out, idx: &str, srv: &str, chunk: usize
 }
 
 // ------------------------------------------------------------------------------------------
+// concurrent `next` on ONE stream: k connections, barrier-released, each pulls until it sees `last`
+// or an error.  Every chunk must go to exactly one of them; exactly one `last` overall.
+// ------------------------------------------------------------------------------------------
+fn exec_cnext(sv: &mut Servers, out: &mut Out, idx: &str, p: &Params, k: usize) -> Option<RawResult> {
+    let built = build(p)?;
+    let resource = register(built.spec.clone());
+    let stream_token = stream_tok(&built.logical, built.is_pattern);
+    let known = !stream_token.starts_with("z:");
+    let op = format!("cnext {} {} {} {} {} {} {} {}", idx, p.srv, p.chunk, p.depth, k, stream_token, built.evs_tok, p.aux());
+    out.begin(&op);
+    let addr = sv.addr(&p.srv, &p.kind, 0, p.chunk, p.depth)?;
+    let sv: &Servers = sv;
+    let mut failures: Vec<(String, String)> = Vec::new();
+    let mut toks: Vec<String> = Vec::new();
+    let opened = Conn::connect(sv, &p.srv, addr).and_then(|mut c| {
+        let r = do_open(&mut c, sv, &resource);
+        c.close(sv);
+        r
+    });
+    match opened {
+        Err(e) => failures.push(("svs.raw.open_failed".into(), e)),
+        Ok(open) => {
+            let barrier = std::sync::Barrier::new(k);
+            let id = open.stream_id;
+            let srv = p.srv.as_str();
+            let per: Vec<Vec<Pulled>> = std::thread::scope(|scope| {
+                let hs: Vec<_> = (0..k)
+                    .map(|_| {
+                        let barrier = &barrier;
+                        scope.spawn(move || {
+                            let mut conn = Conn::connect(sv, srv, addr);
+                            barrier.wait();
+                            let mut got = Vec::new();
+                            if let Ok(c) = &mut conn {
+                                let mut probs = Vec::new();
+                                for _ in 0..100_000 {
+                                    let pl = do_next(c, sv, id, &mut probs);
+                                    let stop = !matches!(&pl, Pulled::Chunk { last: 0, .. });
+                                    got.push(pl);
+                                    if stop {
+                                        break;
+                                    }
+                                }
+                            } else {
+                                got.push(Pulled::Bad("connect".into()));
+                            }
+                            if let Ok(c) = conn {
+                                c.close(sv);
+                            }
+                            got
+                        })
+                    })
+                    .collect();
+                hs.into_iter().map(|h| h.join().unwrap_or_default()).collect()
+            });
+            let mut total = 0usize;
+            let mut lasts = 0usize;
+            for pl in per.iter().flatten() {
+                match pl {
+                    Pulled::Chunk { body, last } => {
+                        total += body.len();
+                        if *last == 1 {
+                            lasts += 1;
+                        }
+                        toks.push(show_pulled(pl, known));
+                    }
+                    Pulled::Err => {}
+                    Pulled::Bad(e) => failures.push((format!("svs.cnext.{}", e.split(':').next().unwrap_or("io").replace(' ', "_")), format!("next: {e}"))),
+                }
+            }
+            if failures.is_empty() {
+                if lasts != 1 {
+                    failures.push(("svs.cnext.last_count".into(), format!("{k} concurrent consumers of one stream saw {lasts} chunks with last=1")));
+                }
+                if total != built.logical.len() {
+                    failures.push(("svs.cnext.bytes_total".into(), format!("{k} concurrent consumers of one stream received {total} bytes in all, producer emitted {}", built.logical.len())));
+                }
+            }
+        }
+    }
+    unregister(&resource);
+    toks.sort();
+    let obs = format!("{idx} cnext {}", toks.join(" ")).trim_end().to_string();
+    Some(RawResult { op, obs, nontrivial: true, failures, skip: false })
+}
+
+// ------------------------------------------------------------------------------------------
 // paused producer (sync pullers): the writer sleeps once, longer than any plausible reply timeout,
 // before some chunk; `pull_to_vec` over the blocking `Client` on its own thread.  One-sided: `Ok`
 // must carry exactly the producer's bytes; an `Err` is a skip.
@@ -1586,6 +1673,15 @@ impl Runner {
         }
         j
     }
+    fn cnext(&mut self, p: &Params, k: usize) {
+        self.n += 1;
+        let idx = format!("{}", self.n);
+        self.count(p, "cnext");
+        match exec_cnext(&mut self.sv, &mut self.out, &idx, p, k) {
+            Some(r) => self.finish_case(r),
+            None => self.out.count("svs.generator.unbuildable"),
+        }
+    }
     fn conc(&mut self, srv: &str, chunk: usize, depth: usize, n: usize, rounds: usize, l: usize) {
         self.n += 1;
         let idx = format!("{}", self.n);
@@ -1720,6 +1816,12 @@ fn main() {
                         run.hl(&p, &client, &puller);
                     }
                 },
+                Some("cnext") if w.len() == 9 => {
+                    let mut p = base(w[2], "reader", 0, w[3].parse().unwrap_or(1), w[4].parse().unwrap_or(0));
+                    if p.parse_aux(w[8]).is_some() && p.chunk >= 1 {
+                        run.cnext(&p, w[5].parse::<usize>().unwrap_or(2).clamp(1, 16));
+                    }
+                }
                 Some("conc") if w.len() == 8 => {
                     let f: Vec<usize> = w[3..8].iter().filter_map(|x| x.parse().ok()).collect();
                     if f.len() == 5 && f[2] >= 1 && f[2] <= 32 { run.conc(w[2], f[0], f[1], f[2], f[3], f[4]); }
@@ -1883,6 +1985,15 @@ fn main() {
         let n = 4 + r.below(5) as usize;
         let chunk = *r.pick(&[3usize, 7, 64]);
         run.conc(srvs[k % 2], chunk, r.below(9) as usize, n, if thorough { 12 } else { 8 }, 5 + r.below(40) as usize);
+    }
+    // (C2) several connections pulling ONE stream concurrently
+    for kk in 0..(if thorough { 200 } else { 24 }) {
+        let chunk = *r.pick(&[1usize, 3, 7, 64]);
+        let mut p = base(srvs[kk % 2], "reader", 0, chunk, r.below(9) as usize);
+        p.len = chunk * (3 + r.below(20) as usize) + r.below(chunk as u64 + 1) as usize;
+        p.piece = *r.pick(&[1usize, 5, 8192]);
+        if r.chance(1, 2) { p.seed = 1 + r.below(1 << 20); }
+        run.cnext(&p, 2 + r.below(4) as usize);
     }
     // (F2) two streams open at once on one connection: isolation of sessions, ids, lookahead
     for _ in 0..(if thorough { 600 } else { 60 }) {
